@@ -13,6 +13,8 @@ What is checked
      permissions / owner / timestamp, expected values computed independently
      (calendar.timegm); garbage lines never raise.
   4. MLSD fact lines: exact raw info (RFC 3659 reading); garbage never raises; FEAT replies.
+  6. statefulness: what a parser returns for a text does not depend on what callers did with earlier results (all
+     mutable parts changed), on the inputs parsed in between, or on the thread (section 6 below).
   5. the Coq scanner Parse/Url.v (url_parse) and Parse/FtpTime.v (ftp_time_impl) are
      re-validated against the real regex / _parse_ftp_time on a sample with vm_compute.
 
@@ -953,12 +955,315 @@ def check_ambient(parser, inp, tz, lc_time, base=None):
                       "as under TZ=%r LC_TIME='C': %r%s" % (AMBIENT_TZ[0], braw, "" if bf is None else " [%s]" % bf["sig"]))
 
 
+# ===================================================================== 6. statefulness
+#
+# A parser is a function of its input text: what it returns for X does not depend on what the callers did with the
+# results of earlier calls (a ParseResult's params dict, a raw-info dict, a FEAT dict are mutable and callers do
+# consume them), on which other inputs were parsed in between, or on which thread asks.  For every parser of the
+# property: parse X and keep a deep copy (taken BEFORE anything is touched; for the generated inputs the independent
+# expectation of sections 2-4 is checked on top), mutate everything mutable in the result, parse other inputs (and
+# mutate those results), parse X again - every later outcome must equal the first one, and the independent
+# faithfulness verdict must stay the same.
+
+MUTATION_MODES = ("update", "pop", "clear", "poison-values")
+STATEFUL_PARSERS = ("parse_fs_url", "fs.opener.parse", "registry.open", "list", "list/parse_line", "mlsx", "mlsx/facts",
+                    "features", "ftp_time")
+
+
+def sig_stateful(parser):
+    return "%s: result depends on what earlier callers did with earlier results (shared mutable state)" % parser
+
+
+def freeze(x):
+    """Deep, type-sensitive, order-insensitive (for dicts) immutable image of a parser outcome."""
+    if isinstance(x, dict):
+        return ("dict", tuple(sorted(((freeze(k), freeze(v)) for k, v in x.items()), key=repr)))
+    if isinstance(x, tuple) and hasattr(x, "_fields"):
+        return (type(x).__name__,) + tuple((f, freeze(getattr(x, f))) for f in x._fields)
+    if isinstance(x, (list, tuple)):
+        return (type(x).__name__, tuple(freeze(v) for v in x))
+    if isinstance(x, (set, frozenset)):
+        return (type(x).__name__, tuple(sorted((freeze(v) for v in x), key=repr)))
+    return (type(x).__name__, repr(x))
+
+
+def mutate(x, mode, depth=0):
+    """Change everything mutable that is reachable from a parser result, in place.  -> number of objects changed."""
+    n = 0
+    if depth > 6:
+        return 0
+    if isinstance(x, dict):
+        for v in list(x.values()):
+            n += mutate(v, mode, depth + 1)
+        if mode == "update":
+            x["<added by a caller>"] = "x"
+            for k in list(x):
+                if isinstance(x[k], (str, int, float)) or x[k] is None:
+                    x[k] = "<changed by a caller>"
+                    break
+        elif mode == "pop":
+            if x:
+                x.pop(sorted(x, key=repr)[0])
+        elif mode == "clear":
+            x.clear()
+        else:
+            for k in list(x):
+                if not isinstance(x[k], (dict, list)):
+                    x[k] = "<changed by a caller>"
+        return n + 1
+    if isinstance(x, list):
+        for v in list(x):
+            n += mutate(v, mode, depth + 1)
+        if mode == "update":
+            x.append("<added by a caller>")
+        elif mode == "pop":
+            if x:
+                x.pop()
+        elif mode == "clear":
+            del x[:]
+        else:
+            x.reverse()
+            x.append(None)
+        return n + 1
+    if isinstance(x, tuple):
+        for v in x:
+            n += mutate(v, mode, depth + 1)
+        for f in getattr(x, "_fields", ()):          # attribute assignment where possible (a namedtuple refuses)
+            try:
+                setattr(x, f, "<changed by a caller>")
+                n += 1
+            except Exception:  # noqa
+                pass
+        return n
+    if hasattr(x, "__dict__") and not isinstance(x, type):
+        for k in list(vars(x)):
+            try:
+                setattr(x, k, "<changed by a caller>")
+                n += 1
+            except Exception:  # noqa
+                pass
+    return n
+
+
+_REC = {}
+
+
+def recording_registry():
+    """A private fs.opener Registry with one opener ('rec://') that records the ParseResult the registry hands it and
+    then consumes it the way openers do (pops / adds options in parse_result.params)."""
+    if not _REC:
+        from fs.opener.registry import Registry
+        from fs.opener.base import Opener
+        from fs.memoryfs import MemoryFS
+        seen = []
+
+        class RecOpener(Opener):
+            protocols = ["rec"]
+
+            def open_fs(self, fs_url, parse_result, writeable, create, cwd):
+                seen.append(freeze(parse_result))
+                mutate(parse_result, _REC.get("mode", "pop"))
+                return MemoryFS()
+        reg = Registry(load_extern=False)
+        reg.install(RecOpener)
+        _REC.update(registry=reg, seen=seen)
+    return _REC
+
+
+def stateful_call(parser, inp):
+    """-> (outcome image, live result or None).  One call of the real parser; never raises."""
+    m = M()
+    if parser not in STATEFUL_PARSERS:
+        raise ValueError(parser)
+    try:
+        if parser == "parse_fs_url":
+            r = m["up"].parse_fs_url(inp)
+        elif parser == "fs.opener.parse":
+            import fs.opener
+            r = fs.opener.parse(inp)
+        elif parser == "registry.open":
+            rec = recording_registry()
+            del rec["seen"][:]
+            f, path = rec["registry"].open(inp)
+            f.close()
+            return ("ok", (tuple(rec["seen"]), freeze(path))), None     # the opener mutated the ParseResult itself
+        elif parser == "list":
+            r = m["lp"].parse(inp)
+        elif parser == "list/parse_line":
+            r = m["lp"].parse_line(inp)
+        elif parser == "mlsx":
+            r = list(m["FTPFS"]._parse_mlsx(inp))
+        elif parser == "mlsx/facts":
+            r = m["FTPFS"]._parse_facts(inp)
+        elif parser == "features":
+            r = m["FTPFS"]._parse_features(inp)
+        else:
+            r = m["FTPFS"]._parse_ftp_time(inp)
+    except Exception as e:  # noqa
+        return ("raised", type(e).__name__), None
+    return ("ok", freeze(r)), r
+
+
+def check_stateful(inp):
+    """Replayable unit: inp = dict(parser, input, mode, between=[(parser, input), ...]).
+    parse input; mutate the result; parse (and mutate) the `between` inputs; parse input again (twice)."""
+    parser, x, mode = inp["parser"], inp["input"], inp["mode"]
+    _REC["mode"] = mode
+    first, live = stateful_call(parser, x)
+    if live is not None:
+        mutate(live, mode)
+    for p2, x2 in inp.get("between") or []:
+        _o, l2 = stateful_call(p2, x2)
+        if l2 is not None:
+            mutate(l2, mode)
+    for again in (1, 2):
+        later, live = stateful_call(parser, x)
+        if later != first:
+            return fail(sig_stateful(parser), "stateful", "stateful", inp,
+                        "parse #%d of the same text after a caller changed the earlier result (%s): %r" % (again + 1, mode, later),
+                        "as the first parse: %r" % (first,))
+        if live is not None:
+            mutate(live, mode)
+    return None
+
+
+def explore_stateful(seed, thorough, record, nontrivial):
+    """-> coverage dict; failures go to record()."""
+    t0 = time.time()
+    rnd = random.Random(seed * 15485863 + 2020)
+    k = 3 if thorough else 1
+    # inputs from the grammars of sections 1-4 (with their independent expectations), probes included
+    parts = []
+    while len(parts) < 260 * k:
+        p = random_parts(rnd)
+        if p["params"] or len(parts) % 4 == 0:
+            parts.append(p)
+    ufields = [random_unix(rnd) for _ in range(100 * k)]
+    wfields = [random_windows(rnd) for _ in range(60 * k)]
+    mfields = [random_mlsx(rnd) for _ in range(150 * k)]
+    times = [random_ftp_time(rnd) for _ in range(80 * k)]
+    feats = [random_feat(rnd)[0] for _ in range(80 * k)]
+    built = [build_url(p) for p in parts]
+    urls = list(URL_PROBES) + built + [random_urlish(rnd) for _ in range(60 * k)]
+    urls = [u for u in urls if not any(0xD800 <= ord(c) <= 0xDFFF for c in u)]
+    rec = ["rec://" + u.split("://", 1)[1] for u in built[:120 * k] if "\n" not in u.split("://", 1)[1]]
+    lines = [render_unix(f) for f in ufields] + [render_windows(f) for f in wfields] + LIST_PROBES
+    batches = [[l] for l in lines] + [rnd.sample(lines, rnd.randint(2, 6)) for _ in range(40 * k)]
+    ml = [render_mlsx(f) for f in mfields] + MLSX_PROBES
+    mbatches = [[l] for l in ml] + [rnd.sample(ml, rnd.randint(2, 6)) for _ in range(40 * k)]
+    pools = {"parse_fs_url": urls, "fs.opener.parse": urls[::3], "registry.open": rec, "list": batches,
+             "list/parse_line": lines[::2], "mlsx": mbatches, "mlsx/facts": ml[::2], "features": feats, "ftp_time": times}
+    assert sorted(pools) == sorted(STATEFUL_PARSERS)
+
+    def verdicts():
+        """signature of the faithfulness failure (or None) of every generated input, by the independent expectations"""
+        out = []
+        for name, chk, items in (("parse_fs_url/round-trip", check_roundtrip, parts), ("list/unix", check_unix, ufields),
+                                 ("list/windows", check_windows, wfields), ("mlsx", check_mlsx, mfields),
+                                 ("ftp_time", check_ftp_time, times)):
+            for it in items:
+                f = chk(it)[1]
+                out.append((name, it, None if f is None else f["sig"], None if f is None else f["observed"]))
+        return out
+    verdict0 = verdicts()
+    cov = dict(parsers=sorted(pools), inputs=dict((p, len(v)) for p, v in pools.items()), mutation_modes=list(MUTATION_MODES),
+               units=0, calls=len(verdict0) * 2, results_mutated=0, phases={}, threads=0, failures=0,
+               independent_verdicts_rechecked=len(verdict0))
+    everything = [(p, x) for p in sorted(pools) for x in pools[p]]
+
+    def note(f):
+        if f is not None:
+            cov["failures"] += 1
+            record(f)
+    # the reference: first outcome of every input, taken before ANY result has been touched (deep, immutable image);
+    # the independent expectations of sections 2-4 have judged these very inputs in this run already
+    reference = {}
+    live = {}
+    for p, x in everything:
+        o, l = stateful_call(p, x)
+        reference[(p, json.dumps(x))] = o
+        live[(p, json.dumps(x))] = l
+        cov["calls"] += 1
+        if o[0] == "ok" and o[1] not in (("dict", ()), ("list", ()), ("NoneType", "None")):
+            nontrivial.add(hash(("st", p, json.dumps(x))))
+
+    def compare(p, x, o, phase, mode):
+        cov["calls"] += 1
+        bump(cov["phases"], phase)
+        if o != reference[(p, json.dumps(x))]:
+            note(fail(sig_stateful(p), "stateful", "stateful", dict(parser=p, input=x, mode=mode, between=[]),
+                      "in phase %r (%s): %r" % (phase, mode, o), "as the first parse of this run: %r" % (reference[(p, json.dumps(x))],)))
+    # phase A: now the callers change the results they were handed first, mode by mode; then every input again,
+    # in the same and in the reverse order (more inputs in between than any cache would hold, and fewer)
+    for mi, mode in enumerate(MUTATION_MODES):
+        _REC["mode"] = mode
+        for key, l in live.items():
+            if l is not None:
+                cov["results_mutated"] += 1 if mutate(l, mode) else 0
+        order = everything if mi % 2 == 0 else everything[::-1]
+        for p, x in order:
+            o, l = stateful_call(p, x)
+            compare(p, x, o, "all parsed, all results changed, all parsed again", mode)
+            live[(p, json.dumps(x))] = l
+    # phase B: replayable units - parse X, change the result, k other inputs in between, parse X again
+    for i, (p, x) in enumerate(everything):
+        mode = MUTATION_MODES[i % len(MUTATION_MODES)]
+        between = [] if i % 3 == 0 else [everything[(i * 7 + j * 13 + 1) % len(everything)] for j in range(1 + i % 4)]
+        unit = dict(parser=p, input=x, mode=mode, between=[list(b) for b in between])
+        cov["units"] += 1
+        cov["calls"] += 3 + len(between)
+        bump(cov["phases"], "unit: parse, change, %d others, parse again" % len(between))
+        f = check_stateful(unit)
+        note(f)
+        if f is None:
+            o, _l = stateful_call(p, x)
+            compare(p, x, o, "after the unit", mode)
+    # phase C: several threads doing the same to the same inputs at once
+    import threading
+    nthreads = 6 if thorough else 4
+    errors = []
+
+    def worker(t):
+        r2 = random.Random(t * 7919 + 5)
+        mine = list(everything)
+        r2.shuffle(mine)
+        for i, (p, x) in enumerate(mine[:400 if not thorough else 2000]):
+            if p == "registry.open":
+                continue        # the recording opener's list is shared by design
+            o, l = stateful_call(p, x)
+            if o != reference[(p, json.dumps(x))]:
+                errors.append((p, x, o, t))
+            if l is not None:
+                mutate(l, MUTATION_MODES[(i + t) % len(MUTATION_MODES)])
+    ths = [threading.Thread(target=worker, args=(t,)) for t in range(nthreads)]
+    for t in ths:
+        t.start()
+    for t in ths:
+        t.join()
+    cov["threads"] = nthreads
+    cov["calls"] += nthreads * min(len(everything), 400 if not thorough else 2000)
+    bump(cov["phases"], "threads", nthreads * min(len(everything), 400 if not thorough else 2000))
+    for p, x, o, t in errors[:50]:
+        note(fail(sig_stateful(p), "stateful", "stateful", dict(parser=p, input=x, mode="update", between=[]),
+                  "in thread %d of %d parsing and changing results concurrently: %r" % (t, nthreads, o),
+                  "as the first parse of this run: %r" % (reference[(p, json.dumps(x))],)))
+    # the faithfulness verdicts of sections 2-4 must not have moved either (independent expectations)
+    for (name, it, sig0, _o0), (_n, _i, sig1, obs1) in zip(verdict0, verdicts()):
+        if sig0 != sig1:
+            note(fail(sig_stateful(name), "stateful", name, it, "after the callers changed earlier results: %s (%s)" % (obs1, sig1),
+                      "the verdict before anything was changed: %s" % (sig0 or "exactly the expected result",)))
+    cov["seconds"] = round(time.time() - t0, 2)
+    return cov
+
+
 # ===================================================================== re-check / minimise
 
 def recheck(parser, inp):
     """Re-run one stored input; returns the failure dict or None."""
     if parser == "ambient":
         return check_ambient(inp["parser"], inp["input"], inp.get("tz"), inp.get("lc_time"))[1]
+    if parser == "stateful":
+        return check_stateful(inp)
     if parser == "fs.time":
         return check_fs_time(inp)[1]
     if parser == "parse_fs_url":
@@ -988,6 +1293,9 @@ def rendered(parser, inp):
         if parser == "ambient":
             return "TZ=%s LC_TIME=%s %s: %r" % (inp.get("tz"), inp.get("lc_time"), inp["parser"],
                                                 rendered(inp["parser"], inp["input"]))
+        if parser == "stateful":
+            return "%s: %r, result changed by the caller (%s), %d other inputs, then the same text again" % (
+                inp["parser"], inp["input"], inp["mode"], len(inp.get("between") or []))
         if parser == "parse_fs_url/round-trip":
             return build_url(inp)
         if parser == "list/unix":
@@ -1347,6 +1655,15 @@ def explore(tier, seed):
     counts["evaluations"] += amb["evaluations"]
     timings["ambient"] = round(time.time() - t0, 2)
 
+    # ---- 6. statefulness: results changed by callers, other inputs in between, threads
+    t0 = time.time()
+    hist["stateful"] = {}
+    stateful = explore_stateful(seed, thorough, record, nontrivial)
+    hist["stateful"] = dict(stateful["phases"])
+    counts["stateful"] = stateful["calls"]
+    counts["evaluations"] += stateful["calls"]
+    timings["stateful"] = round(time.time() - t0, 2)
+
     # ---- inputs for the Coq cross-check (<= 300 URL strings, <= 120 time strings)
     coq_urls = list(URL_PROBES)
     for _ in range(130):
@@ -1361,7 +1678,7 @@ def explore(tier, seed):
     coq_times = [t for t in times if all(c in "0123456789.aT:" for c in t)][:110]
     coq_times += ["20201301000000", "00000101000000", "19700101000000", "2020010100000", "", "99991231235959", "20200100000000"]
     return dict(hist=hist, fails=fails, counts=counts, nontrivial=len(nontrivial), samples=samples, timings=timings,
-                coq_urls=coq_urls, coq_times=coq_times, ambient=amb)
+                coq_urls=coq_urls, coq_times=coq_times, ambient=amb, stateful=stateful)
 
 
 # ===================================================================== Coq model vs real regex
@@ -1542,9 +1859,17 @@ def run(report):
                     "epoch_to_datetime / datetime_to_epoch on integer, fractional, negative and far-future epochs and on "
                     "aware datetimes in fixed-offset zones) is re-evaluated under each POSIX TZ setting (os.environ['TZ'] + "
                     "time.tzset()) and each installed non-C LC_TIME locale: raw result and faithfulness verdict must equal "
-                    "those under UTC0 / LC_TIME=C.",
+                    "those under UTC0 / LC_TIME=C. "
+                    "Statefulness dimension: every parser (parse_fs_url, fs.opener.parse, Registry.open through a recording "
+                    "opener that consumes parse_result.params, _ftp_parse.parse / parse_line, _parse_mlsx, _parse_facts, "
+                    "_parse_features, _parse_ftp_time) on generated inputs and probes: first outcome kept as a deep immutable "
+                    "image before anything is touched; then every mutable object reachable from the results is changed "
+                    "(update / pop / clear / poison values, attribute assignment where possible), everything is parsed again "
+                    "in the same and the reverse order, in replayable units (parse X, change, 0-4 other inputs, parse X "
+                    "twice) and from several threads at once: every outcome must equal the first one and the independent "
+                    "faithfulness verdicts of sections 2-4 must not move.",
                counts=res["counts"], histograms=res["hist"], samples=res["samples"][:10],
-               ambient=res["ambient"],
+               ambient=res["ambient"], stateful=res["stateful"],
                signatures=dict((s, dict(count=e["count"], minimal_input=minimal.get(s),
                                         known=known_entry(report, s) is not None))
                                for s, e in res["fails"].items()),
@@ -1604,6 +1929,7 @@ if __name__ == "__main__":
         small = minimise(min(e["examples"], key=lambda x: x[0])[1])
         print("SIG %-62s n=%-6d min=%r" % (sig, e["count"], rendered(small["parser"], small["input"])))
     print("ambient:", dict((k, v) for k, v in res["ambient"].items()))
+    print("stateful:", res["stateful"])
     if "--nocoq" not in sys.argv:
         coq = coq_crosscheck(res["coq_urls"], res["coq_times"])
         print("coq cross-check:", coq)
